@@ -55,6 +55,22 @@ pub unsafe extern "C" fn clock_gettime(clk: libc::clockid_t, ts: *mut libc::time
     r
 }
 
+static REPLAY_MARGIN_MB: std::sync::atomic::AtomicU64 = std::sync::atomic::AtomicU64::new(0);
+
+fn limit_address_space_to_margin(margin_mb: u64) {
+    let vm_kb: u64 = std::fs::read_to_string("/proc/self/status")
+        .ok()
+        .and_then(|s| s.lines().find(|l| l.starts_with("VmSize:")).and_then(|l| l.split_whitespace().nth(1).and_then(|x| x.parse().ok())))
+        .unwrap_or(0);
+    if vm_kb > 0 {
+        let limit = (vm_kb << 10) + ((margin_mb + 24) << 20);
+        let lim = libc::rlimit { rlim_cur: limit, rlim_max: limit };
+        unsafe {
+            libc::setrlimit(libc::RLIMIT_AS, &lim);
+        }
+    }
+}
+
 const ORACLE_HASH_SEED: u64 = 0x0C0A_C1E0_0000_0001;
 const MAIN_HASH_SEED: u64 = 0x3A13_0000_0000_0001;
 const DEFAULT_SEED: u64 = 20261003;
@@ -147,11 +163,12 @@ fn mode_golden_one(args: &[String]) -> i32 {
 
 fn fresh_golden(key: &Key, hash_seed: u64) -> Result<Outcome, String> {
     let exe = std::env::current_exe().map_err(|e| e.to_string())?;
-    let mut child = Command::new(exe)
+    let mut gcmd = Command::new(exe);
+    grex_sim::penv::clear_for_golden(&mut gcmd);
+    let mut child = gcmd
         .arg("golden-one")
         .arg("--hash-seed")
         .arg(hash_seed.to_string())
-        .env_remove("RUST_BACKTRACE")
         .stdin(Stdio::piped())
         .stdout(Stdio::piped())
         .stderr(Stdio::null())
@@ -349,6 +366,27 @@ fn run_episode(
 }
 
 fn mode_worker(args: &[String]) -> i32 {
+    // the process environment of this simulated lifetime (variables, CPU set) is chosen from the seed and applied
+    // before anything else runs
+    let penv = {
+        let vs: u64 = arg_value(args, "--verif-seed").and_then(|s| s.parse().ok()).unwrap_or(DEFAULT_SEED);
+        let ix: u64 = arg_value(args, "--index").and_then(|s| s.parse().ok()).unwrap_or(0);
+        let e = if ix >= SCENARIO_BASE {
+            let k = ix - SCENARIO_BASE;
+            if (SCENARIO_KINDS..2 * SCENARIO_KINDS).contains(&k) {
+                grex_sim::penv::ProcEnv {
+                    vars: vec![("LANG".into(), "tr_TR.UTF-8".into()), ("LC_ALL".into(), "tr_TR.UTF-8".into()), ("RAYON_NUM_THREADS".into(), "3".into())],
+                    cpus: 3,
+                }
+            } else {
+                grex_sim::penv::ProcEnv::default()
+            }
+        } else {
+            grex_sim::penv::choose(derive(vs, &[0x50454E56, ix]))
+        };
+        grex_sim::penv::apply(&e);
+        e
+    };
     process_setup();
     if let Err(e) = seam_selftest() {
         println!("{}", json!({"harness_error": e}));
@@ -362,6 +400,12 @@ fn mode_worker(args: &[String]) -> i32 {
     let want_sample = has_flag(args, "--sample");
     let out = if index >= SCENARIO_BASE {
         let runs = scenario_runs(index - SCENARIO_BASE, verif_seed);
+        let k = index - SCENARIO_BASE;
+        if k >= SCENARIO_MEMORY_LIMITED {
+            // failing allocations: from here on the address space may grow only by the margin (plus one thread stack)
+            let margin = SCENARIO_MEMORY_MARGINS_MB[((k - SCENARIO_MEMORY_LIMITED) as usize) % SCENARIO_MEMORY_MARGINS_MB.len()];
+            limit_address_space_to_margin(margin);
+        }
         run_episode(|r| runs.get(r).cloned(), want_sample, false)
     } else if index < n_sys {
         // systematic stratum: this episode executes its slice of the systematic runs
@@ -389,6 +433,7 @@ fn mode_worker(args: &[String]) -> i32 {
     };
     let mut js = out.json;
     js["index"] = json!(index);
+    js["process_env"] = penv.to_json();
     js["episode_seed"] = json!(episode_seed.to_string());
     js["systematic"] = json!(index < n_sys);
     println!("{}", js);
@@ -419,6 +464,26 @@ fn load_replay(path: &str) -> Result<(Value, Vec<RunSpec>), String> {
 }
 
 fn mode_replay(args: &[String]) -> i32 {
+    // re-create the process environment the trace was recorded in (before any thread exists)
+    if let Some(p) = args.iter().find(|a| !a.starts_with("--") && a.as_str() != "replay") {
+        if let Ok(text) = std::fs::read_to_string(p) {
+            if let Ok(v) = serde_json::from_str::<Value>(&text) {
+                if v.get("process_env").is_some() {
+                    grex_sim::penv::apply(&grex_sim::penv::ProcEnv::from_json(&v["process_env"]));
+                }
+                if let Some(margin) = v.get("address_space_margin_mb").and_then(|x| x.as_u64()) {
+                    // a trace recorded under an address-space limit: one malloc arena (needs a fresh process image),
+                    // then the same margin above what is mapped now
+                    if std::env::var("MALLOC_ARENA_MAX").as_deref() != Ok("1") {
+                        let exe = std::env::current_exe().expect("current_exe");
+                        let st = Command::new(exe).args(args).env("MALLOC_ARENA_MAX", "1").status().expect("re-exec for replay");
+                        return st.code().unwrap_or(2);
+                    }
+                    REPLAY_MARGIN_MB.store(margin, Ordering::SeqCst);
+                }
+            }
+        }
+    }
     process_setup();
     if let Err(e) = seam_selftest() {
         println!("{}", json!({"harness_error": e}));
@@ -490,6 +555,10 @@ fn mode_replay(args: &[String]) -> i32 {
             println!("{}", json!({"harness_error": format!("invalid spec: {}", e), "invalid": true}));
             return 3;
         }
+    }
+    let m = REPLAY_MARGIN_MB.load(Ordering::SeqCst);
+    if m > 0 {
+        limit_address_space_to_margin(m);
     }
     let out = run_episode(|r| runs.get(r).cloned(), has_flag(args, "--events"), true);
     let js = out.json;
@@ -1001,6 +1070,10 @@ fn spawn_worker(verif_seed: u64, tier: &str, index: u64, n_sys: u64, sample: boo
     if sample {
         cmd.arg("--sample");
     }
+    if index >= SCENARIO_BASE + SCENARIO_MEMORY_LIMITED {
+        // one malloc arena, so that a new thread does not reserve 64 MiB of address space of its own
+        cmd.env("MALLOC_ARENA_MAX", "1");
+    }
     let mut child = cmd.spawn().map_err(|e| e.to_string())?;
     // read stdout on a thread so a large output cannot block the child
     let mut so = child.stdout.take().unwrap();
@@ -1053,6 +1126,7 @@ fn mode_run(args: &[String]) -> i32 {
     let doubles: Arc<Mutex<Vec<(u64, String, String)>>> = Arc::new(Mutex::new(vec![]));
     let errors: Arc<Mutex<Vec<String>>> = Arc::new(Mutex::new(vec![]));
     let stop = Arc::new(std::sync::atomic::AtomicBool::new(false));
+    let mem_limited_not_judged = Arc::new(AtomicUsize::new(0));
     let mut handles = vec![];
     for _ in 0..jobs {
         let next = next.clone();
@@ -1060,6 +1134,7 @@ fn mode_run(args: &[String]) -> i32 {
         let doubles = doubles.clone();
         let errors = errors.clone();
         let stop = stop.clone();
+        let mem_limited_not_judged = mem_limited_not_judged.clone();
         let tier = tier.clone();
         let indices = indices.clone();
         handles.push(std::thread::spawn(move || loop {
@@ -1079,9 +1154,15 @@ fn mode_run(args: &[String]) -> i32 {
             if res.is_err() {
                 res = spawn_worker(verif_seed, &tier, i, n_sys, sample, 3 * timeout_first);
             }
+            if res.is_err() && i >= SCENARIO_BASE + SCENARIO_MEMORY_LIMITED {
+                // allocation failure aborts the process; running out of the (deliberately small) address space is
+                // not a verdict about the property: the episode is not judged
+                mem_limited_not_judged.fetch_add(1, Ordering::SeqCst);
+                continue;
+            }
             match res {
                 Ok(v) => {
-                    if double_every > 0 && i % double_every == 0 {
+                    if double_every > 0 && i % double_every == 0 && i < SCENARIO_BASE + SCENARIO_MEMORY_LIMITED {
                         match spawn_worker(verif_seed, &tier, i, n_sys, sample, 180) {
                             Ok(v2) => {
                                 // a run in which the scheduler had to break a lock held across a switch point is
@@ -1193,6 +1274,9 @@ fn mode_run(args: &[String]) -> i32 {
                 let k = kv[0].as_str().unwrap_or("").to_string();
                 match key_table.get(&k) {
                     None => {
+                        if *i >= SCENARIO_BASE {
+                            forced_audit.push((k.clone(), kv[1].clone(), *i));
+                        }
                         key_table.insert(k, (kv[1].clone(), *i));
                     }
                     Some((o, _first_ep)) => {
@@ -1337,6 +1421,12 @@ fn mode_run(args: &[String]) -> i32 {
         };
         let meta = json!({
             "property": "C10", "engine": "simhist", "verif_seed": verif_seed.to_string(), "tier": tier, "episode": ep,
+            "process_env": results.get(ep).map(|r| r["process_env"].clone()).unwrap_or(Value::Null),
+            "address_space_margin_mb": if *ep >= SCENARIO_BASE + SCENARIO_MEMORY_LIMITED {
+                json!(SCENARIO_MEMORY_MARGINS_MB[((*ep - SCENARIO_BASE - SCENARIO_MEMORY_LIMITED) as usize) % SCENARIO_MEMORY_MARGINS_MB.len()])
+            } else {
+                Value::Null
+            },
             "violation": viol,
             "how_to_replay": "/verif/check --replay <this file>",
         });
@@ -1408,6 +1498,9 @@ fn mode_run(args: &[String]) -> i32 {
             "stopped_at_wall_cap": stopped_early,
             "systematic_episodes": n_sys,
             "scenario_episodes": n_scen,
+            "memory_limited_scenarios": {"margins_mb": SCENARIO_MEMORY_MARGINS_MB.to_vec(), "aborted_on_allocation_failure_and_not_judged": mem_limited_not_judged.load(Ordering::SeqCst)},
+            "episodes_in_a_non_canonical_process_environment": results.values().filter(|r| r["process_env"]["vars"].as_array().map(|a| !a.is_empty()).unwrap_or(false) || r["process_env"]["cpus"].as_u64().unwrap_or(0) > 0).count(),
+            "episodes_confined_to_fewer_cpus": results.values().filter(|r| r["process_env"]["cpus"].as_u64().unwrap_or(0) > 0).count(),
             "runs": runs_total,
             "build_events_compared": builds_total,
             "runs_per_hour": (runs_total as f64 / wall * 3600.0) as u64,
